@@ -19,7 +19,7 @@ RULE = ('cases: programs (4..35 steps) of send_headers (final / informational / 
 ASSUMPTIONS = ['K03: a stream (or connection) hit by a state-machine refusal is not used again',
                'K04: DATA / END_STREAM before the final header block is the one tolerated deviating cell']
 TIERS = {'quick': {'cases': 5000, 'size': 300},
-         'thorough': {'cases': 200000, 'size': 400}}
+         'thorough': {'cases': 1600000, 'size': 400}}
 
 
 class OutMonitor:
